@@ -30,7 +30,11 @@ def registry():
         P.Notation('exq', 2, P.Exists(1, P.Implies(P.MetaVar(0), P.MetaVar(1))), '(exq {0} {1})'),
         P.Notation('muq', 1, P.Mu(2, P.App(P.MetaVar(0), P.SVar(2))), '(muq {0})'),
     ]
-    groups = {'prop': prop, 'defn': defn, 'kore': kore, 'gen': gen, 'extra': extra}
+    # the generated families at two-digit parameters (argument positions / bound variables >= 10)
+    wide = [
+        K.nary_app(P.Symbol('w'), 12), K.nary_app(P.Symbol('cfg'), 11, True), K.sorted_exists(11), K.kore_exists(10), forall(12),
+    ]
+    groups = {'prop': prop, 'defn': defn, 'kore': kore, 'gen': gen, 'extra': extra, 'wide': wide}
     by_label = {}
     for g in groups.values():
         for n in g:
